@@ -177,12 +177,27 @@ def bor_b(a, b):
 MAXW = None   # optional cap on word width (set by harnesses that only need small counters)
 
 
+WORD_MODE = False     # harnesses dominated by counters / adders keep integers as one bit-vector word (bits extracted lazily)
+
+
 class SInt:
-    __slots__ = ('bits', 'lin')
+    __slots__ = ('_bits', 'lin', 'wd')
 
     def __init__(self, bits):
-        self.bits = list(bits)
+        self._bits = list(bits)
+        self.wd = None       # (bit-vector term, width) when the value was produced by word arithmetic in WORD_MODE
         self.lin = None      # set by the table-lookup summarisation: value is M.x (GF(2)-linear, no constant) in SInt x
+
+    @property
+    def bits(self):
+        if self._bits is None:
+            t, w = self.wd
+            self._bits = [z3.Extract(i, i, t) for i in range(w)] if w > 1 else [t]
+        return self._bits
+
+    @bits.setter
+    def bits(self, v):
+        self._bits = v
 
     @staticmethod
     def of(v, w=1):
@@ -209,9 +224,16 @@ class SInt:
         return SInt([z3.Extract(k, k, v) for k in range(w)])
 
     def width(self):
-        return len(self.bits)
+        return self.wd[1] if self._bits is None else len(self._bits)
 
     def word(self, w=None):
+        if self.wd is not None:
+            t, w0 = self.wd
+            if w is None or w == w0:
+                return t
+            if w > w0:
+                return z3.ZeroExt(w - w0, t)
+            return z3.Extract(w - 1, 0, t)      # callers only narrow under an explicit MAXW cap
         if w is None:
             w = len(self.bits)
         bs = self.bits
@@ -226,6 +248,12 @@ class SInt:
 
     @staticmethod
     def from_word(t, w):
+        if WORD_MODE:
+            r = SInt.__new__(SInt)
+            r._bits = None
+            r.wd = (t, w)
+            r.lin = None
+            return r
         t = z3.simplify(t)
         bits = []
         for i in range(w):
@@ -235,11 +263,11 @@ class SInt:
 
     def _ar(self, o, f, grow):
         o = SInt.of(o)
-        w = max(len(self.bits), len(o.bits)) + grow
+        w = max(self.width(), o.width()) + grow
         if MAXW is not None and w > MAXW:
             w = MAXW
-            a = z3.Extract(w - 1, 0, self.word(max(w, len(self.bits)))) if len(self.bits) > w else self.word(w)
-            b = z3.Extract(w - 1, 0, o.word(max(w, len(o.bits)))) if len(o.bits) > w else o.word(w)
+            a = z3.Extract(w - 1, 0, self.word(max(w, self.width()))) if self.width() > w else self.word(w)
+            b = z3.Extract(w - 1, 0, o.word(max(w, o.width()))) if o.width() > w else o.word(w)
             return SInt.from_word(f(a, b), w)
         return SInt.from_word(f(self.word(w), o.word(w)), w)
 
@@ -259,7 +287,7 @@ class SInt:
         o = SInt.of(o)
         ex = _explorer()
         if ex is not None:
-            w = max(len(self.bits), len(o.bits))
+            w = max(self.width(), o.width())
             ex.side_condition('no-underflow', z3.UGE(self.word(w), o.word(w)))
         return self._ar(o, lambda a, b: a - b, 0)
 
@@ -349,11 +377,13 @@ class SInt:
             raise Unsupported('SInt compared with float')
         if not isinstance(o, (int, SInt, SBool)):
             return NotImplemented
-        if isc(o) and o >= (1 << len(self.bits)) and big_result is not None:
+        if isc(o) and o >= (1 << self.width()) and big_result is not None:
             return big_result
         o = SInt.of(o)
-        w = max(len(self.bits), len(o.bits))
+        w = max(self.width(), o.width())
         t = f(self.word(w), o.word(w))
+        if self.wd is not None or o.wd is not None:
+            return SBool(t)
         if w <= 16 and sum(1 for b in self.bits if not isc(b)) + sum(1 for b in o.bits if not isc(b)) <= 24 \
                 and all(isc(b) or b.num_args() <= 2 for b in self.bits):
             return mkbool(t)
@@ -405,7 +435,7 @@ class SInt:
         return shadow.placeholder(self, spec)
 
     def __repr__(self):
-        return f'<SInt w={len(self.bits)}>'
+        return f'<SInt w={self.width()}>'
 
     def to_snum(self):
         """the same value as a z3 Int"""
@@ -432,6 +462,9 @@ def sint_ite(g, a, b):
         return a
     A = SInt.of(a)
     B = SInt.of(b)
+    if A.wd is not None or B.wd is not None:
+        n = max(A.width(), B.width())
+        return SInt.from_word(z3.If(g, A.word(n), B.word(n)), n)
     n = max(len(A.bits), len(B.bits))
     A = A.bits + [0] * (n - len(A.bits))
     B = B.bits + [0] * (n - len(B.bits))
